@@ -42,7 +42,7 @@ fn framings(tier: Tier) -> Vec<(String, Vec<u8>, usize, bool)> {
     for n in cls {
         v.push((format!("cl{}", n), post_cl("/b", &payload(n)), n, false));
     }
-    let chs: Vec<usize> = if thorough { vec![10, 1025, 3000] } else { vec![10, 1025] };
+    let chs: Vec<usize> = if thorough { vec![10, 1024, 1025, 3000, 5120] } else { vec![10, 1025] };
     for n in chs {
         for (cn, sizes) in chunkings(n, thorough) {
             if cn == "cutlast" && !thorough {
